@@ -77,7 +77,7 @@ func runC13(r *RunCtx) error {
 	// ---- history level
 	type ratios struct{ s, d, p int64 }
 	ratioGrid := []ratios{{80, 8, 12}, {0, 0, 0}, {100, 0, 0}, {33, 33, 33}, {1, 1, 1}, {0, 50, 50}, {99, 1, 0}, {60, 30, 20} /* > 100: outside the quantifier */, {7, 13, 29}}
-	tokGrid := []int64{0, 1, 2, 3, 5, 99, 101, 4_200_000, 1_000_000_007}
+	tokGrid := []int64{0, 1, 2, 3, 5, 99, 101, 4_200_000, 1_000_000_007, 240_000_000_000_000_000, 2_000_000_000_000_000_000} // incl. emissions whose int64 product with a ratio would overflow
 	runs := r.Scale(14, 160)
 	for k := 0; k < runs; k++ {
 		e, err := NewEnv()
@@ -94,6 +94,15 @@ func runC13(r *RunCtx) error {
 		params.MintDecrease = PickOne(p, decs)
 		if k == 0 {
 			params.TokensPerBlock, params.MintDecrease = 4_200_000, 6
+		}
+		if k == 2 || k == 6 { // emissions so large that emission x ratio does not fit int64 (the shares must still be exact)
+			params.TokensPerBlock, params.MintDecrease = PickOne(p, []int64{240_000_000_000_000_000, 2_000_000_000_000_000_000}), 6
+			params.StakerRatio, params.DevGrantsRatio, params.StorageProviderRatio = 34, 33, 33
+			rt = ratios{34, 33, 33}
+			if k == 6 {
+				params.StakerRatio, params.DevGrantsRatio, params.StorageProviderRatio = 80, 8, 12
+				rt = ratios{80, 8, 12}
+			}
 		}
 		denom := PickOne(p, []string{"ujkl", "ujkl", "", "umint"})
 		params.MintDenom = denom
@@ -122,6 +131,9 @@ func runC13(r *RunCtx) error {
 		}
 		e.App.MintKeeper.SetParams(e.Ctx, params)
 		h := int64(10 + p.Intn(1000))
+		if k%4 == 1 { // runs that cross a change in the number of decimal digits of the height (records are keyed by decimal strings)
+			h = PickOne(p, []int64{95, 98, 995, 9_995, 99_990})
+		}
 		// module residue and an optional previous record
 		if p.Chance(1, 3) {
 			_ = e.App.BankKeeper.MintCoins(e.Ctx, minttypes.ModuleName, sdk.NewCoins(sdk.NewInt64Coin(eff, 1+p.I64n(500))))
@@ -136,6 +148,16 @@ func runC13(r *RunCtx) error {
 		_ = e.Fund(bystander, eff, 12345)
 		inQuant := stipOK && rt.s+rt.d+rt.p <= 100 && stip != nil && !stip.Equals(e.ModAddr("fee_collector"))
 		nblocks := 1 + p.Intn(r.Scale(12, 40))
+		if k%4 == 1 {
+			nblocks = 16 + p.Intn(10)
+		}
+		if params.TokensPerBlock > 1_000_000_000_000_000 { // keep the total supply inside int64 (the observations are int64)
+			nblocks = 1 + p.Intn(4)
+			if k%4 == 1 {
+				params.TokensPerBlock = 4_200_000
+				e.App.MintKeeper.SetParams(e.Ctx, params)
+			}
+		}
 		var lastEm int64
 		if prevEm != nil {
 			lastEm = *prevEm
